@@ -522,20 +522,32 @@ class FunctionCFG:
         return out
 
     def guards(self, x: int) -> List[Tuple[int, str]]:
-        """transitive closure of control dependence (excluding exception edges)."""
-        seen: Set[Tuple[int, str]] = set()
-        work = [x]
-        done = set()
-        while work:
-            y = work.pop()
-            if y in done:
+        """(branch node B, label L): B dominates x and every path from B to x (not revisiting B) starts with the L edge.
+        This is the path condition of x with respect to the branches that dominate it; unlike the transitive closure of
+        control dependence it is not polluted by earlier loop iterations."""
+        out: List[Tuple[int, str]] = []
+        for b in self.nodes:
+            if b.id == x or b.id not in self.dom[x]:
                 continue
-            done.add(y)
-            for b, lab in self.control_deps(y):
-                if (b, lab) not in seen:
-                    seen.add((b, lab))
-                    work.append(b)
-        return sorted(seen)
+            labels: Dict[str, List[int]] = {}
+            for s_, lab in b.succ:
+                l0 = lab.split("|")[0]
+                if l0 in ("exc", "assert-fail", "raise"):
+                    continue
+                labels.setdefault(l0, []).append(s_)
+            if len(labels) < 2:
+                continue
+            via = []
+            for l0, succs in labels.items():
+                hit = False
+                for s_ in succs:
+                    if s_ == x or x in self.reachable_from(s_, avoid={b.id}):
+                        hit = True
+                if hit:
+                    via.append(l0)
+            if len(via) == 1:
+                out.append((b.id, via[0]))
+        return sorted(out)
 
     def all_paths_pass(self, src: int, dst: int, through: Set[int], skip_back: bool = False) -> bool:
         """True iff every CFG path from src to dst passes a node in `through` (src/dst themselves excluded)."""
